@@ -97,6 +97,13 @@ fn grid(tier: Tier) -> Vec<C18World> {
             g.push(w);
         }
     }
+    // far-end first operations with unoptimised frames (a tail call that an optimised build turns into a loop)
+    for (i, (f, sh)) in [("next_min", "asc"), ("prev_max", "desc"), ("remove_max", "desc"), ("remove_min", "asc"), ("contains_min", "asc"), ("max", "desc"), ("min", "asc")].iter().enumerate() {
+        let mut w = base(if i % 2 == 0 { "tree" } else { "set" }, 2 << 20, 100_000, sh, "drop");
+        w.first = (*f).into();
+        w.profile = "debug".into();
+        g.push(w);
+    }
     // partial consumption of a large chain that leaves a small tail to be dropped
     for (i, tail) in [1_000u64, 20_000, 40_000, 65_000, 100_000, 131_000].iter().enumerate() {
         let mut w = base("tree", 2 << 20, 1_000_000, if i % 2 == 0 { "asc" } else { "desc" }, if i % 2 == 0 { "partial_fwd" } else { "partial_back" });
